@@ -618,3 +618,10 @@ M('c03-state-dict-barrier', 'C03', 'S8', 'state_dict synchronises',
 T('c03-twin-no-trailing-flushes', 'C03', 'the two no-op flushes removed',
   (BP, "                    )\n            self._tdc.flush_allreduce_buckets()\n\n        # Compute Preconditioned Gradients", "                    )\n\n        # Compute Preconditioned Gradients"),
   (BP, "                )\n        self._tdc.flush_allreduce_buckets()\n\n        scale = None", "                )\n\n        scale = None"))
+
+# ---------------------------------------------------------------- E8 role traces (C09, C13)
+M('c09-load-compute-on-workers', 'C09', 'E8-ROLES', 'load recomputes only on the assigned inverse workers (seed C09-2)',
+  (BP, "                layer.compute_a_inv(damping=self.damping)\n                layer.compute_g_inv(damping=self.damping)\n                if (\n", "                if get_rank() == self._assignment.inv_worker(name, 'A'):\n                    layer.compute_a_inv(damping=self.damping)\n                if get_rank() == self._assignment.inv_worker(name, 'G'):\n                    layer.compute_g_inv(damping=self.damping)\n                if (\n"))
+M('c13-g-before-a-broadcast', 'C13', 'E8-ROLES', 'G eigendecomposition moved before the A broadcast in step()',
+  (BP, "                if get_rank() == self._assignment.inv_worker(name, 'A'):\n                    layer.compute_a_inv(damping=self.damping)\n                if (\n                    self._assignment.broadcast_inverses()\n                    and self._assignment.is_grad_worker(name)\n                ):\n                    layer.broadcast_a_inv(\n                        src=self._assignment.inv_worker(name, 'A'),\n                        group=self._assignment.grad_worker_group(name),\n                    )\n                if get_rank() == self._assignment.inv_worker(name, 'G'):\n                    layer.compute_g_inv(damping=self.damping)\n",
+       "                if get_rank() == self._assignment.inv_worker(name, 'A'):\n                    layer.compute_a_inv(damping=self.damping)\n                if get_rank() == self._assignment.inv_worker(name, 'G'):\n                    layer.compute_g_inv(damping=self.damping)\n                if (\n                    self._assignment.broadcast_inverses()\n                    and self._assignment.is_grad_worker(name)\n                ):\n                    layer.broadcast_a_inv(\n                        src=self._assignment.inv_worker(name, 'A'),\n                        group=self._assignment.grad_worker_group(name),\n                    )\n"))
